@@ -171,6 +171,18 @@ type world struct {
 
 var t0 = time.Date(2021, 1, 1, 0, 0, 0, 0, time.UTC)
 
+// stamp gives events creation times that do not follow their arrival order (later events look older, some share a
+// time): the gate keeps arrival order, whatever the events say about themselves
+func stamp(ord int) time.Time {
+	switch ord % 3 {
+	case 0:
+		return t0.Add(-time.Duration(ord) * time.Minute)
+	case 1:
+		return t0
+	}
+	return t0.Add(time.Duration(100-ord) * time.Second)
+}
+
 func newWorld(cfg *Config) *world {
 	w := &world{cfg: cfg, c: &ctrl{}}
 	w.f = &gated.Filter{Expiration: time.Duration(cfg.E) * time.Second, NowFunc: func() time.Time { return t0.Add(time.Duration(w.clock) * time.Second) }}
@@ -233,7 +245,7 @@ func (w *world) apply(a *Action) outcome {
 		if a.A == "noid" {
 			id = ""
 		}
-		e := &eventlogger.Event{Type: "t", Payload: &gpay{ID: id, Flush: a.Flush, Ord: ord, c: c}, Formatted: map[string][]byte{}}
+		e := &eventlogger.Event{Type: "t", CreatedAt: stamp(ord), Payload: &gpay{ID: id, Flush: a.Flush, Ord: ord, c: c}, Formatted: map[string][]byte{}}
 		out, err := w.f.Process(ctx, e)
 		return classify(out, err, c)
 	case "flushall":
